@@ -28,7 +28,7 @@ func runSpecial(sp *caseSpec, res *caseResult) {
 		blocked := sp.Name == "server.Close/accept-blocked"
 		a.AcceptTimeout = 30 * time.Millisecond
 		if blocked {
-			a.AcceptTimeout = 20 * time.Second
+			a.AcceptTimeout = 8 * time.Second
 		}
 		if err := a.Start(s.srvCtx); err != nil {
 			res.Inc = append(res.Inc, "set-up failed: "+trimAddr(err.Error()))
@@ -78,7 +78,14 @@ func runSpecial(sp *caseSpec, res *caseResult) {
 			res.Abandon = true // connectionsLock of server A stays locked; its awaitDone goroutine needs the context
 		}
 		if acc != nil {
-			if !waitUntil(settle, acc.returned) {
+			// Accept has a timeout of its own: "blocked for ever" can only be said after it. (An Accept that
+			// registers its holder after the handler was closed, or whose holder channel is not closed because
+			// Close panicked, returns with a timeout error after AcceptTimeout: late, but it returns.)
+			if waitUntil(settle, acc.returned) {
+				res.count("accept_returned_on_close", 1)
+			} else if waitUntil(a.AcceptTimeout, acc.returned) {
+				res.count("accept_returned_by_its_timeout", 1)
+			} else {
 				if st, gs := stable(time.Second); st {
 					s.viol("receiver-stuck/server.Accept", map[string]interface{}{"goroutines": excerpt(gs)})
 					res.Abandon = true
@@ -117,8 +124,19 @@ func runSpecial(sp *caseSpec, res *caseResult) {
 			if err != nil {
 				break
 			}
-			sc, err := srv.Accept(cc)
-			if err == nil {
+			// Accept is itself a blocking call of the library: watched, never trusted to return
+			var sc *client.CqlServerConnection
+			wa := watch("server.Accept", func() error { var e error; sc, e = srv.Accept(cc); return e })
+			if !waitUntil(srv.AcceptTimeout+settle, wa.returned) {
+				s.recvs = append(s.recvs, wa)
+				if st, gs := stable(time.Second); st {
+					s.viol("receiver-stuck/server.Accept", map[string]interface{}{"connection_number": i + 1, "goroutines": excerpt(gs)})
+				} else {
+					s.inconclusive("Accept slow, not stable")
+				}
+				break
+			}
+			if wa.err == nil && sc != nil {
 				accepted++
 				w1 := watch("client.Close", func() error { return cc.Close() })
 				waitUntil(settle, func() bool { return w1.returned() && sc.IsClosed() })
